@@ -128,7 +128,7 @@ func runC05(c *Ctx) {
 			return false
 		}
 		for _, ce := range b2.CondEdges() {
-			if _, m := ana.Match("call<*>(ext#2(next(range(p0))))", ce.Lit); m {
+			if _, m := ana.MatchAny(ce.Lit, "call<*>(ext#2(next(range(p0))))", "call<*>(index(p0, ind<+1>(0)))"); m {
 				if h := calleeOf(ce.Lit); h != nil && runeHelperASCII(c, h) && forAll(b2, *l, ce.Lit.String()) {
 					return true
 				}
@@ -137,7 +137,7 @@ func runC05(c *Ctx) {
 		return false
 	})
 	rejects := c.rejectEdges(b, "bin<<>(len(p0), 1)", "bin<<=>(len(p0), 0)",
-		"un<!>(call<*>(ext#2(next(range(p0)))))", "bin<!=>(call<*>(p0), nil)")
+		"un<!>(call<*>(ext#2(next(range(p0)))))", "un<!>(call<*>(index(p0, ind<+1>(0))))", "bin<!=>(call<*>(p0), nil)")
 	rejects = append(rejects, rejLen...)
 	avoid := ana.ReachableAvoiding(fn, rejects)
 	for _, e := range errs {
